@@ -21,7 +21,7 @@ func XMultiSameMethod() *spec.Spec {
 
 // Extended returns the extended families (everything beyond the documented core combinations).
 func Extended(thorough bool) []*spec.Spec {
-	out := []*spec.Spec{XMultiSameMethod(), XCrossFile(), XTwoServiceFiles(), XTimestampCards(), XTimestampCardsFmt(), XEmptyOrders(), XOneofSiblings(), XSharedMethodHeader(), XQuotedHeaderTexts(), XQuotedAnnotationValues(), XForeignResponse(), XSameNamedNestedEnums(), XOneofVariantShapes(), XInt64Cards(), XHeaderNameShapes(), XParamNameClashes(), XHeaderOverrideShapes(), XUnwrapWrapperShapes(), XProto2Basic(), XSharedTypesAcrossServiceFiles(), XHeaderTypeFormat(), XNestedAnnotated()}
+	out := []*spec.Spec{XMultiSameMethod(), XCrossFile(), XTwoServiceFiles(), XTimestampCards(), XTimestampCardsFmt(), XEmptyOrders(), XOneofSiblings(), XSharedMethodHeader(), XQuotedHeaderTexts(), XQuotedAnnotationValues(), XForeignResponse(), XSameNamedNestedEnums(), XOneofVariantShapes(), XInt64Cards(), XHeaderNameShapes(), XParamNameClashes(), XHeaderOverrideShapes(), XUnwrapWrapperShapes(), XProto2Basic(), XSharedTypesAcrossServiceFiles(), XHeaderTypeFormat(), XNestedAnnotated(), XHeaderSpellingTypes()}
 	out = append(out, XAnnotationCards()...)
 	out = append(out, XIdentifierShapes()...)
 	out = append(out, CtxSpecs()...)
@@ -305,7 +305,9 @@ func XOneofVariantShapes() *spec.Spec {
 func XInt64Cards() *spec.Spec {
 	var fs, members []*spec.Field
 	for _, k := range []string{"int64", "uint64"} {
-		fs = append(fs, spec.F(k+"_one", k).I64(spec.EncNumber), spec.F(k+"_opt", k).I64(spec.EncNumber).Opt(), spec.F(k+"_many", k).I64(spec.EncNumber).Rep(), spec.F(k+"_plain_opt", k).Opt())
+		fs = append(fs, spec.F(k+"_one", k).I64(spec.EncNumber), spec.F(k+"_opt", k).I64(spec.EncNumber).Opt(), spec.F(k+"_many", k).I64(spec.EncNumber).Rep(), spec.F(k+"_plain_opt", k).Opt(),
+			// the annotation on a map field whose VALUES are 64-bit (the generators accept it), beside an unannotated map
+			spec.F(k+"_by_key", k).Map().I64(spec.EncNumber), spec.F(k+"_plain_by_key", k).Map())
 		members = append(members, spec.F(k+"_pick", k).I64(spec.EncNumber).In("choice"))
 	}
 	fs = append(append(fs, members...), spec.F("label", "string").In("choice"))
@@ -335,6 +337,34 @@ func XHeaderNameShapes() *spec.Spec {
 		).H(h("X-Request-ID"), h("X-Type"), h("X-Func"), h("X-2FA-Code")),
 	}}
 	return withCell(spec.One("x_header_name_shapes", f), "ext/unit=header_name_shapes", "extended", "valid")
+}
+
+// XHeaderSpellingTypes: header-name spelling x header type - every type (string, integer, number, boolean, array, string with a
+// format) declared under a name in canonical MIME spelling, with an upper-case acronym, in lower case and in upper case; all
+// required, one RPC per spelling (net/http stores header names canonicalised: a look-up under the declared spelling must still
+// find the value, whatever the type-specific code path). The names are distinct ignoring case: names that differ in case only are
+// the subject of header_name_shapes.
+func XHeaderSpellingTypes() *spec.Spec {
+	msgs := []*spec.Message{spec.M("Req", spec.F("name", "string")), spec.M("Out", spec.F("ok", "bool"))}
+	svc := spec.Svc("SpellingService", "/hs")
+	types := []struct{ key, typ, format string }{{"Str", "string", ""}, {"Int", "integer", ""}, {"Num", "number", ""}, {"Bool", "boolean", ""}, {"Arr", "array", ""}, {"Uid", "string", "uuid"}}
+	for _, sp := range []struct {
+		key string
+		mk  func(t string) string
+	}{
+		{"Canonical", func(t string) string { return "X-" + t + "-Val" }},
+		{"Acronym", func(t string) string { return "X-" + t + "-IDs" }},
+		{"Lower", func(t string) string { return "x-" + strings.ToLower(t) + "-low" }},
+		{"Upper", func(t string) string { return "X-" + strings.ToUpper(t) + "-UPP" }},
+	} {
+		var hs []*spec.Header
+		for _, t := range types {
+			hs = append(hs, &spec.Header{Name: sp.mk(t.key), Type: t.typ, Format: t.format, Required: true})
+		}
+		svc.Methods = append(svc.Methods, spec.RPC("With"+sp.key, "Req", "Out", "POST", "/"+strings.ToLower(sp.key)).H(hs...))
+	}
+	f := &spec.File{Messages: msgs, Services: []*spec.Service{svc}}
+	return withCell(spec.One("x_header_spelling_types", f), "ext/unit=header_spelling_types", "extended", "valid")
 }
 
 // XAnnotationCards: the cardinality family of the field-level codec annotations other than int64_encoding (XInt64Cards): each
